@@ -26,6 +26,7 @@ namespace
         virtual int typeKey() const = 0;
         virtual OptBase *clone() const = 0;
         virtual bool assignFrom(const OptBase &) = 0;
+        virtual OptBase *moved() = 0;
         virtual void selfAssign() = 0;
         virtual void init(H::Reader &r, H::Out &o) = 0;
         virtual void flags(int bits) = 0;
@@ -94,6 +95,12 @@ namespace
             auto *r = new OptImpl<TM, SM, KEY>();
             r->opt.reset(new Opt(*opt));
             return r;
+        }
+        OptBase *moved() override
+        {
+            auto *q = new OptImpl<TM, SM, KEY>();
+            q->opt.reset(new Opt(std::move(*opt)));          // move construction (falls back to a copy if there is no move ctor)
+            return q;
         }
         bool assignFrom(const OptBase &o) override
         {
@@ -388,6 +395,14 @@ namespace
         else if (op == "opt_check") p->check(r, o);
         else if (op == "opt_conc") p->conc(r, o);
         else if (op == "opt_copy") { long ns = r.i(); slots()[ns].reset(p->clone()); o.key("ok"); o.nl(); }
+        else if (op == "opt_move")
+        {
+            long ns = r.i();
+            std::unique_ptr<OptBase> q(p->moved());
+            slots().erase(slot);                             // the moved-from object is destroyed at once
+            slots()[ns] = std::move(q);
+            o.key("ok"); o.nl();
+        }
         else if (op == "opt_assign")
         {
             long ns = r.i();
